@@ -27,6 +27,9 @@ extern "C"
     void        sbv_excluded(const char* reason);
     int         sbv_concrete(void);                     // 1 in native / concrete-interpretation mode
     int         sbv_is_symbolic(const void* p, size_t n);
+    // contracts: mode 0 (default) = the intercepted function returns an arbitrary value of its contract; mode 1 = the smallest one
+    // (used when the random source is irrelevant to the clause under test). name: "udist"
+    void        sbv_set_contract(const char* name, int mode);
     // fork-free helpers
     int         sbv_ite(int cond, int a, int b);
 #ifdef __cplusplus
